@@ -16,7 +16,8 @@ open AgpTpf
 /-! ## fragment.py -/
 
 theorem fragment_length_eq (f : Fragment) :
-    f.length = Gen.K.Fragment_length (self_end := f.stop) (self_start := f.start) := rfl
+    f.length = Gen.K.Fragment_length (self_end := f.stop) (self_start := f.start) := by
+  unfold Fragment.length Gen.K.Fragment_length; omega
 
 theorem fragment_overlaps_eq (a b : Fragment) :
     a.overlaps b = Gen.K.Fragment_overlaps (self_name := a.name) (self_start := a.start) (self_end := a.stop)
@@ -65,13 +66,16 @@ theorem junction_tuple_eq (a b : Fragment) :
 /-! ## overlap_result.py -/
 
 theorem overlap_length_eq (o : OverlapResult) :
-    o.length = Gen.K.OverlapResult_length (self_end := o.stop) (self_start := o.start) := rfl
+    o.length = Gen.K.OverlapResult_length (self_end := o.stop) (self_start := o.start) := by
+  unfold OverlapResult.length Gen.K.OverlapResult_length; omega
 
 theorem start_overhang_eq (o : OverlapResult) :
-    o.startOverhang = Gen.K.OverlapResult_start_overhang (self_bait_start := o.bait.start) (self_start := o.start) := rfl
+    o.startOverhang = Gen.K.OverlapResult_start_overhang (self_bait_start := o.bait.start) (self_start := o.start) := by
+  unfold OverlapResult.startOverhang Gen.K.OverlapResult_start_overhang; omega
 
 theorem end_overhang_eq (o : OverlapResult) :
-    o.endOverhang = Gen.K.OverlapResult_end_overhang (self_bait_end := o.bait.stop) (self_end := o.stop) := rfl
+    o.endOverhang = Gen.K.OverlapResult_end_overhang (self_bait_end := o.bait.stop) (self_end := o.stop) := by
+  unfold OverlapResult.endOverhang Gen.K.OverlapResult_end_overhang; omega
 
 /-- `start_row_bait_overlap`: the model reads `rows[0]` with Python's IndexError, then computes the translated expression -/
 theorem start_row_bait_overlap_eq (o : OverlapResult) :
